@@ -49,10 +49,11 @@ ASSUMPTIONS = [
 OPEN = [
     "termination of the subdivision for smooth curves is not proved",
     "stack_eq_rec is one direction only (recursion result => stack machine result); the converse holds up to RecursionError and is not proved",
-    "sagitta_bound is about the real-valued formulas; float rounding of asin's argument above 1 is a reproduced defect (known finding C14-1)",
+    "sagitta_bound is about the real-valued formulas (incl. the clamp min(x, 1.0) of fix 677c29f93); float rounding is covered by the oracle only "
+    "(sagitta within a few ulps of r, 2r)",
     "make_path dispatch per entity type, add_ellipse/add_spline/add_2d_polyline, to_* converters, nesting: not modelled, oracle on the real code only",
     "the B-spline/ellipse test is the distance to the LINE through the chord ends: lineTest_not_documented / bspline_line_test_counterexample "
-    "show that it does not establish the documented distance to the chord (known finding C14-4)",
+    "show that it does not establish the documented distance to the chord (known findings C14-4a/4b)",
 ]
 
 SRC_FILES = [
@@ -1258,10 +1259,8 @@ def oracle_bezier(ctx):
         if tv[-1][0] is None and key3(verts[-1]) == key3(c.control_points[-1]):
             tv[-1] = (Fr(1), verts[-1])
         P = lambda t, cps=cps: de_casteljau(cps, t)
-        # ends: the yielded objects are control_points[0] / [-1] (offset subtracted and added back: may differ by 1 ulp from the input)
-        ok = check_run(ctx, st, f"bezier{deg - 1}-py", tv, P, d, segs, Fr(0), Fr(1), key3(c.control_points[0]), key3(c.control_points[-1]), scale, rep, True)
-        if any(abs(a - b) > 1e-9 * scale for a, b in zip(key3(verts[0]), cps[0])) or any(abs(a - b) > 1e-9 * scale for a, b in zip(key3(verts[-1]), cps[-1])):
-            ctx.fail(f"bezier{deg - 1}-py/ends/input/{i}", f"ends {verts[0]} {verts[-1]} differ from the control points {rep}", rep)
+        # ends: exactly the first / last definition point (fix 0db19c816: control_points no longer round-trips through the offset)
+        ok = check_run(ctx, st, f"bezier{deg - 1}-py", tv, P, d, segs, Fr(0), Fr(1), tuple(float(x) for x in cps[0]), tuple(float(x) for x in cps[-1]), scale, rep, True)
         # Cython twin: same vertex list
         acc = (a4.Bezier4P if deg == 4 else a3.Bezier3P)(pts)
         try:
